@@ -5,10 +5,12 @@
 package main
 
 import (
+	"encoding/binary"
 	"flag"
 	"fmt"
 	"os"
 	"sort"
+	"strings"
 
 	sdk "github.com/cosmos/cosmos-sdk/types"
 
@@ -29,6 +31,7 @@ var (
 	flagFilter = flag.String("filter", "", "debug: only rows whose short name contains this")
 	flagDepth  = flag.Int("depth", 0, "override the depth of the tier")
 	flagTable  = flag.Bool("table", false, "print the message table and exit")
+	flagCount  = flag.Bool("countonly", false, "debug: explore without evaluating the cube (state counts)")
 )
 
 func describe(tab []*Row) []string {
@@ -102,20 +105,42 @@ func main() {
 	}
 
 	al := &Alphabet{Targets: []string{"A", "B", "C"}}
-	depth := 2
+	depths := []int{2}
 	if f.Tier == "thorough" {
-		depth = 3
+		// level by level: depth 3 is completed before depth 4 starts (same visited set, nothing is re-checked)
+		depths = []int{3, 4}
 		al.GovTransfer = true
 		al.Withdraw = true
 	}
 	if *flagDepth > 0 {
-		depth = *flagDepth
+		depths = []int{*flagDepth}
 	}
+	// Work split. The expensive part is the cube (~2400 messages per state), the life-cycle ops are cheap.
+	// Every shard therefore walks the WHOLE op tree (the explorer is given a one-shard view) and the distinct
+	// states are dealt to the shards by their hash: each distinct state's cube is evaluated exactly once
+	// overall, whatever history reaches it first.
+	fAll := *f
+	fAll.Shard, fAll.NShards = 0, 1
+	evaluated := core.NewSeen()
+	var opTransitions int64
 	sc := &core.Scenario[Op, *Ledger]{
 		App: w.App, Stores: nil, Config: cfg,
 		Enabled: w.Enabled(al),
-		Apply:   w.Apply,
+		Apply: func(ctx sdk.Context, l *Ledger, op Op, fail func(a, s, d string)) (sdk.Context, string) {
+			opTransitions++
+			return w.Apply(ctx, l, op, fail)
+		},
 		Check: func(ctx sdk.Context, l *Ledger, fail func(a, s, d string)) {
+			h := core.StateHash(w.App, ctx, nil)
+			for i, b := range ledgerKey(l) {
+				h[i] ^= b
+			}
+			if !f.Mine(int(binary.BigEndian.Uint32(h[:4]) >> 1)) {
+				return
+			}
+			if !evaluated.Add(h) || *flagCount {
+				return
+			}
 			cube.Check(ctx, l, func(a, s, d string) {
 				n := len(r.Violations)
 				fail(a, s, d)
@@ -129,9 +154,30 @@ func main() {
 		},
 		LedgerKey: ledgerKey,
 	}
-	ex := core.NewExplorer(sc, f, r)
-	ex.Run("base", w.Ctx, w.Base.Clone(), depth)
-	ex.DumpHashes()
+	ex := core.NewExplorer(sc, &fAll, r)
+	done := 0
+	for _, d := range depths {
+		ex.Run("base", w.Ctx, w.Base.Clone(), d)
+		if !r.Exhaustive {
+			break
+		}
+		done = d
+	}
+	r.DepthCompleted = done
+	evaluated.Dump(f.HashOut)
+	// the op tree was walked by every shard: count it once
+	r.States = int64(evaluated.Len())
+	if f.Shard != 0 {
+		r.Transitions -= opTransitions
+		r.Traces = 0
+		for k := range r.Rejected {
+			if strings.HasPrefix(k, "rejected:") {
+				delete(r.Rejected, k)
+			}
+		}
+	}
+	r.Extra["sum_states_evaluated"] = evaluated.Len()
+	r.Extra["depths"] = fmt.Sprint(depths)
 
 	r.Extra["message_table"] = describe(tab)
 	r.Extra["registered_without_handler"] = w.Unroutable
